@@ -87,10 +87,12 @@ def run(ctx, prove=True):
     LintedFile.deduplicate_in_source_space = staticmethod(spy)
     recs = []
     try:
-        for k in range(ctx.budget(40, 600)):
-            tpl, jctx = gen.jinja_template(ctx.rng)
-            cfg = FluffConfig(overrides={"dialect": "ansi", "templater": "jinja"},
-                              configs={"templater": {"jinja": {"context": jctx}}})
+        for k in range(ctx.budget(80, 1200)):
+            tpl, jctx = gen.jinja_template(ctx.rng) if k % 2 else gen.jinja_block_template(ctx.rng)
+            over = {"dialect": "ansi", "templater": "jinja"}
+            if k % 4 == 0:
+                over["ignore_templated_areas"] = False
+            cfg = FluffConfig(overrides=over, configs={"templater": {"jinja": {"context": jctx}}})
             captured.clear()
             try:
                 lf = Linter(config=cfg).lint_string(tpl)
@@ -105,7 +107,7 @@ def run(ctx, prove=True):
             pos = [(v.line_no, v.line_pos) for v in final]
             if len(set(sigs)) != len(sigs):
                 dup = [s for s in sigs if sigs.count(s) > 1][0]
-                ctx.violation("a distinct violation is reported twice", {"template": tpl, "context": jctx, "duplicate": str(dup)})
+                ctx.violation("a distinct violation is reported twice", {"template": tpl, "context": jctx, "overrides": over, "duplicate": str(dup)})
             if pos != sorted(pos):
                 ctx.violation("violations not in source order", {"template": tpl, "context": jctx, "positions": pos})
             from sqlfluff.core.linter.linted_dir import LintedDir
@@ -144,7 +146,7 @@ def replay(ctx, path):
     print(json.dumps(case, indent=1))
     if "template" in case:
         from sqlfluff.core import Linter, FluffConfig
-        cfg = FluffConfig(overrides={"dialect": "ansi", "templater": "jinja"}, configs={"templater": {"jinja": {"context": case["context"]}}})
+        cfg = FluffConfig(overrides=case.get("overrides", {"dialect": "ansi", "templater": "jinja"}), configs={"templater": {"jinja": {"context": case["context"]}}})
         lf = Linter(config=cfg).lint_string(case["template"])
         final = lf.get_violations(filter_warning=False)
         sigs = [indep_signature(v) for v in final]
